@@ -377,5 +377,12 @@ func gen(a vh.Args) {
 			w.Printf("%s %s %d | %s\n", fmt.Sprintf("s%d.%s", i, kind), kind, mlfs, body)
 		}
 	}
+	nidx := 150
+	if a.Tier == "thorough" {
+		nidx = 20000
+	}
+	for i := 0; i < nidx; i++ {
+		w.Printf("x%d tanidx 0 | %s\n", i, genTanIdx(r))
+	}
 	w.Close()
 }
